@@ -99,16 +99,7 @@ fn write_through(item: &Item, m: usize, write_chunk: Chunking) -> Result<Vec<u8>
     })
 }
 
-fn field_ok(exp: &Exp, got: &RVal) -> bool {
-    match exp {
-        Exp::Is(r) => vlib::corpus::rval_eq_modulo_empty_array(r, got),
-        Exp::NullOr(r) => *got == RVal::Null || r == got,
-        Exp::Multi(v) => match got {
-            RVal::Array(_, e) => e == v,
-            single => v.len() == 1 && &v[0] == single,
-        },
-    }
-}
+use crate::typed::field_ok;
 
 /// judge the byte stream written for one item
 fn judge_write(item: &Item, m: usize, bytes: &[u8]) -> Vec<(String, String)> {
